@@ -191,3 +191,139 @@ def polarization_vectors_uniform_path():
 @harness(clause="polarization-vectors")
 def polarization_vectors_layered_path():
     _polarization(LP, {})
+
+
+# ---------------------------------------------------------------------------
+# propagate(): same grid delayed by tof, linear in the polarization, per-frequency factor
+# ---------------------------------------------------------------------------
+
+class FreqGrid:
+    """what scipy.fft.fftfreq returns, as far as propagate() uses it when attenuation_interpolation is None"""
+
+    def __init__(self, n, d):
+        self.n = n
+        self.d = d
+        self.sorted = False
+
+    def sort(self):
+        self.sorted = True
+
+
+ATT = ufunc("attenuation_at")
+
+
+def _propagate_setup(cls, with_interpolation_kw):
+    times = symarr("times")
+    n = len(times)
+    assume(n >= 2)
+    vals = symarr("values", n)
+    sig = new("pyrex.signals.Signal", times, vals, value_type="field")
+    e, r, s0 = _directions()
+    assume(Not(eq(s0, 0)))
+    tof = real("tof")
+    rs = real("r_s")
+    rp = real("r_p")
+    path = obj(cls)
+    path._lazy_emitted_direction = e
+    path._lazy_received_direction = r
+    path._lazy_tof = tof
+    path._lazy_fresnel = (rs, rp)
+    grids = []
+
+    def fftfreq(n, d=1):
+        grids.append((n, d))
+        return FreqGrid(n, d)
+    use_lib_stub("scipy.fft.fftfreq", fftfreq)
+    att_calls = []
+
+    def attenuation(self, f, *a, **k):
+        att_calls.append(f)
+        return ("attenuation-values", f) if not is_plain_number(f) else ATT(f)
+    for q in ("pyrex.ray_tracing.BasicRayTracePath.attenuation", "pyrex.ray_tracing.SpecializedRayTracePath.attenuation",
+              "pyrex.ray_tracing.UniformRayTracePath.attenuation",
+              "pyrex.custom.layered_ice.ray_tracing.LayeredRayTracePath.attenuation"):
+        use_stub(q, attenuation)
+    interp_calls = []
+
+    def interp(x, xp, fp, left=None, right=None, period=None):
+        interp_calls.append((x, xp, fp))
+        return ATT(x)
+    use_lib_stub("np.interp", interp)
+    filt = []
+
+    def filter_frequencies(self, freq_response, force_real=False):
+        filt.append((self, freq_response, force_real))
+    use_stub("pyrex.signals.Signal.filter_frequencies", filter_frequencies)
+    pol = vec("pol")
+    return sig, times, vals, path, pol, e, r, tof, rs, rp, grids, att_calls, interp_calls, filt
+
+
+def is_plain_number(f):
+    return not hasattr(f, "sort")
+
+
+def _propagate_checks(cls, gradient):
+    sig, times, vals, path, pol, e, r, tof, rs, rp, grids, att_calls, interp_calls, filt = _propagate_setup(cls, gradient)
+    # the three unit vectors built by propagate() (normalize under its contract; their geometry is the
+    # polarization-vectors clause): u_s0, u_p0, u_p1 in call order
+    units = []
+
+    def normalize_stub(v):
+        u = vec("unit_%d" % len(units))
+        assume(eq(u[0] * u[0] + u[1] * u[1] + u[2] * u[2], 1))
+        units.append((u, v))
+        return u
+    use_stub("pyrex.internal_functions.normalize", normalize_stub)
+    if gradient:
+        outs, (us, up) = path.propagate(sig, pol, attenuation_interpolation=None)
+    else:
+        outs, (us, up) = path.propagate(sig, pol)
+    prove("two-signals-two-vectors", And(len(outs) == 2, len(units) == 3, us is units[0][0], up is units[2][0]))
+    ss, sp = outs
+    n = len(times)
+    i = fresh_index("i", n)
+    u_s0, u_p0 = units[0][0], units[1][0]
+    pol_s = pol[0] * u_s0[0] + pol[1] * u_s0[1] + pol[2] * u_s0[2]
+    pol_p = pol[0] * u_p0[0] + pol[1] * u_p0[1] + pol[2] * u_p0[2]
+    for name, out, proj in (("s", ss, pol_s), ("p", sp, pol_p)):
+        prove(name + ":same-grid-delayed-by-tof", And(len(out.times) == n, eq(out.times[i], times[i] + tof)))
+        prove(name + ":one-value-per-sample", len(out.values) == n)
+        prove(name + ":shares-nothing-with-the-input", Not(shares(out, sig)))
+        prove(name + ":values-scaled-by-the-projection-of-the-polarization", eq(out.values[i], vals[i] * proj))
+        filtered = [k for k in range(len(filt)) if filt[k][0] is out]
+        prove(name + ":filtered-exactly-once-with-force_real", And(len(filtered) == 1, filt[filtered[0]][2] is True if filtered else False))
+        if filtered:
+            f = real("f")
+            resp = filt[filtered[0]][1](f)
+            prove(name + ":frequency-factor-is-attenuation-times-fresnel", eq(resp, ATT(f) * (rs if name == "s" else rp)))
+    prove("input-signal-unchanged", And(eq(sig.times[i], times[i]), eq(sig.values[i], vals[i])))
+    if gradient:
+        prove("attenuation-tabulated-on-the-signal's-own-frequencies", And(grids[0][0] == 2 * n, eq(grids[0][1], times[1] - times[0]),
+                                                                            interp_calls[0][1] is att_calls[0], interp_calls[0][2][0] == "attenuation-values"))
+
+
+@harness(clause="propagate")
+def propagate_gradient_path():
+    _propagate_checks(SP, True)
+
+
+@harness(clause="propagate")
+def propagate_uniform_path():
+    _propagate_checks(UP, False)
+
+
+@harness(clause="propagate")
+def propagate_layered_path():
+    _propagate_checks(LP, False)
+
+
+@harness(clause="propagate")
+def propagate_without_polarization_delays_and_attenuates():
+    for cls in (SP, UP):
+        sig, times, vals, path, pol, e, r, tof, rs, rp, grids, att_calls, interp_calls, filt = _propagate_setup(cls, True)
+        out = path.propagate(sig)
+        i = fresh_index("i", len(times))
+        prove(cls[-22:] + ":delayed", eq(out.times[i], times[i] + tof))
+        prove(cls[-22:] + ":values-copied-then-filtered-once", And(eq(out.values[i], vals[i]), len(filt) == 1, filt[0][0] is out))
+        prove(cls[-22:] + ":input-unchanged", And(eq(sig.times[i], times[i]), Not(shares(out, sig))))
+        prove(cls[-22:] + ":nothing-to-do", path.propagate() is None)
